@@ -47,7 +47,9 @@ func miscRules() []*Rule {
 
 var rePhiIdx = regexp.MustCompile(`\(phi:t\d+@[A-Za-z0-9_$]+\+const:1\)`)
 
-func gen(s string) string { return rePhiIdx.ReplaceAllString(s, "i") }
+var reGen = regexp.MustCompile(`~\d+`)
+
+func gen(s string) string { return rePhiIdx.ReplaceAllString(reGen.ReplaceAllString(s, ""), "i") }
 
 func eventsOf(lp *LPath, kind, name string) []Event {
 	var out []Event
@@ -855,6 +857,127 @@ func runDone0(c *Ctx) {
 			}
 			okSrc = check(v, 0)
 			c.Check(okSrc, key, r.Pos(), "done comes from a callback or inner iteration level")
+		}
+	}
+}
+
+func autoidxRule() *Rule {
+	return &Rule{ID: "AUTOIDX", Props: []string{"C10"}, Min: 3,
+		Doc: "automatic-index numbering: on a rowid table the counter behind sqlite_autoindex_<table>_<n> advances only when the constraint actually created an index (SQLite shares an existing equivalent index and does not consume a number); WITHOUT ROWID primary keys always consume one",
+		Run: runAutoIdx}
+}
+
+func runAutoIdx(c *Ctx) {
+	p := c.P
+	fn := c.MustFunc("db", "newCreateTable")
+	if fn == nil {
+		return
+	}
+	// the counter: the integer formatted into "sqlite_autoindex_%s_%d"
+	incs := map[*ssa.BinOp]bool{}
+	seen := map[ssa.Value]bool{}
+	var back func(v ssa.Value)
+	back = func(v ssa.Value) {
+		if seen[v] {
+			return
+		}
+		seen[v] = true
+		switch x := v.(type) {
+		case *ssa.Phi:
+			for _, e := range x.Edges {
+				back(e)
+			}
+		case *ssa.BinOp:
+			if k, ok := constInt(x.Y); ok && x.Op == token.ADD && k == 1 {
+				incs[x] = true
+				back(x.X)
+			}
+		case *ssa.MakeInterface:
+			back(x.X)
+		case *ssa.UnOp:
+			if al, ok := x.X.(*ssa.Alloc); ok {
+				for _, st := range cellStores(al) {
+					back(st.Val)
+				}
+			}
+		}
+	}
+	nfmt := 0
+	for _, cs := range callsIn(fn) {
+		callee := cs.Common().StaticCallee()
+		if callee == nil || !isLibFunc(callee, "fmt", "Sprintf") {
+			continue
+		}
+		f, ok := constString(cs.Common().Args[0])
+		if !ok || !strings.HasPrefix(f, "sqlite_autoindex_") {
+			continue
+		}
+		nfmt++
+		// variadic args: stores into the backing array
+		if sl, ok := cs.Common().Args[1].(*ssa.Slice); ok {
+			if al, ok := sl.X.(*ssa.Alloc); ok {
+				for _, r := range *al.Referrers() {
+					if ia, ok := r.(*ssa.IndexAddr); ok {
+						for _, rr := range *ia.Referrers() {
+							if st, ok := rr.(*ssa.Store); ok && isIntType(stripConv(st.Val).Type()) {
+								back(st.Val)
+							}
+						}
+					}
+				}
+			}
+		}
+	}
+	if nfmt == 0 || len(incs) == 0 {
+		c.Undecided("autoindex counter", fn.Pos(), "cannot find the counter formatted into sqlite_autoindex_<table>_<n> (%d format sites, %d increments)", nfmt, len(incs))
+		return
+	}
+	t := &Termer{P: p}
+	k := 0
+	for _, b := range fn.Blocks {
+		for _, in := range b.Instrs {
+			inc, ok := in.(*ssa.BinOp)
+			if !ok || !incs[inc] {
+				continue
+			}
+			k++
+			key := fmt.Sprintf("autoindex increment#%d", k)
+			paths, ok := EnumLits(fn.Blocks[0], 0, TabOpts{Termer: t, EventOf: callEvents(p), Limit: 600000,
+				Stop: func(i2 ssa.Instruction, ps *pathState) bool { return i2 == ssa.Instruction(inc) }})
+			if !ok {
+				c.Undecided(key, inc.Pos(), "too many paths")
+				continue
+			}
+			bad := ""
+			for _, lp := range paths {
+				if lp.Stop == nil {
+					continue
+				}
+				wr := false
+				for _, l := range lp.Lits {
+					if strings.HasSuffix(l.Subject, ".WithoutRowid") && l.Op == token.EQL && ((l.C == "true") == l.Val) {
+						wr = true
+					}
+				}
+				if wr {
+					continue
+				}
+				// the most recent addIndex call on the path must have answered true
+				last := ""
+				for _, e := range lp.Events {
+					if e.Kind == "call" && e.Name == "(*db.Schema).addIndex" {
+						last = t.Term(e.Instr.(ssa.Value), lp.PS)
+					}
+				}
+				if last == "" || !lp.Has(last, token.EQL, "true", true) {
+					bad = pathDesc(lp)
+					if len(bad) > 300 {
+						bad = "…" + bad[len(bad)-300:]
+					}
+					break
+				}
+			}
+			c.Check(bad == "", key, inc.Pos(), "the counter advances only after addIndex reported that it added an index (or for a WITHOUT ROWID primary key) %s", map[bool]string{true: "", false: "— not on path [" + bad + "]: a constraint that shares an existing index would shift the names of all later automatic indexes"}[bad == ""])
 		}
 	}
 }
